@@ -512,7 +512,8 @@ PROPS['C20'] = {
 PROPS['C21'] = {
     'module': 'SuironVerif.Props.C21',
     'theorems': ['Suiron.C21.load_is_parse_each', 'Suiron.C21.parseAll_spec', 'Suiron.C21.load_or_reject', 'Suiron.C21.separate_rules_exact', 'Suiron.C21.join_lines_exact',
-                 'Suiron.C21.bad_line_rejected', 'Suiron.C21.layout_of_rule', 'Suiron.C21.blank_line_ignored', 'Suiron.C21.C21'],
+                 'Suiron.C21.bad_line_rejected', 'Suiron.C21.layout_of_rule', 'Suiron.C21.strip_comments_exact', 'Suiron.C21.line_of_piece',
+                 'Suiron.C21.comment_line_ignored', 'Suiron.C21.blank_line_ignored', 'Suiron.C21.C21'],
     'oracles': ['C21'],
     'suites': {
         'quick': parse_runs('C21', [('reader', 2500, None), ('reader', 2500, None), ('reader', 2500, None)]),
@@ -523,8 +524,8 @@ PROPS['C21'] = {
             "load_kb_from_file and read with read_facts_and_rules. Compared with the model: the list of separated rule texts and the loaded knowledge base (rules grouped "
             "by predicate, complete structure). Non-trivial/distinct = distinct file text.",
     'design_ref': '5.21',
-    'assumptions': ["the rule parser is a parameter of the reader theorems; comment stripping is characterised by the correspondence suite only (the theorem C21 takes the "
-                    "stripped lines as given)",
+    'assumptions': ["the rule parser is a parameter of the reader theorems; comment stripping is proved for lines of the form indentation + piece + blanks + optional "
+                    "`#` / `%` / `//` comment, where the piece has its brackets closed, no comment character outside brackets and does not end in a slash",
                     "a rule text that begins with a digit right after another rule is outside the theorem (`OneRule` demands a non-digit first character: a period in front of a "
                     "digit is read as a decimal point)",
                     "oracle on the implementation: a file whose rules all parse on their own loads without error and format_kb() of the loaded knowledge base equals that of "
@@ -549,8 +550,8 @@ LEVEL_TEXT = {
            'fuel. Structured texts are decided by the contexts stream. One open known finding (F3: arithmetic infix as an argument).',
     'C21': 'Proved in Lean on the reader model, with the rule parser as a parameter: a file is rejected or its knowledge base is exactly parse_rule of each separated rule text, '
            'in order; the separation returns exactly the rule texts of a concatenation (decimal points, periods inside brackets and quotes never end a rule); the joined text '
-           'is the stripped non-empty lines with one blank after every unfinished line; blank and comment-only lines contribute nothing; a line ending in the middle of a word '
-           'rejects the file. Comment stripping itself is tied to the code by the reader stream only.',
+           'is the stripped non-empty lines with one blank after every unfinished line; a line (indentation, piece, blanks, optional # / % / // comment) is stripped to '
+           'exactly its piece; blank and comment-only lines contribute nothing; a line ending in the middle of a word rejects the file.',
     'C22': 'Proved in Lean (frame lemma over the whole engine, by induction on fuel): text written by earlier queries is never read, and once a query has been built the '
            'globals the engine reads (variable counter, stop flag) depend on the query alone; hence a query built in any two histories gives, request after request and for '
            'any number of requests, the same answers and the same output (theorem C22). Histories through solve / solve_all with hook-forced and real timeouts, leftover '
